@@ -60,7 +60,20 @@ class World:
             b = self.ncp.out.pop(0)
             self.wire_log.append(("n2h", b))
             if self.protocol is not None and not self.closed:
-                self.loop.call_soon(self.protocol.data_received, b)
+                self.loop.call_soon(self._deliver, b)
+
+    def _deliver(self, b):
+        """what a stream transport does with a read: an exception escaping `data_received` is fatal - the transport closes and
+        reports the loss with that exception (asyncio's `_fatal_error`)"""
+        if self.closed:
+            return
+        try:
+            self.protocol.data_received(b)
+        except Exception as e:  # noqa: BLE001
+            self.fatal = getattr(self, "fatal", []) + [type(e).__name__]
+            self.closed = True
+            self.serial.closing = True
+            self.protocol.connection_lost(e)
 
     def run(self, coro, max_time=120.0, max_steps=4000):
         """drive the loop until the coroutine is done: settle, else fire the next timer"""
